@@ -94,6 +94,15 @@ func opBlock(h *HState, a Event) Event {
 				if err == nil {
 					o.b, o.msg = bb, bb.MsgBlock()
 				}
+			case "buffer":
+				// the reader is a *bytes.Buffer that the caller re-uses for the next message afterwards
+				buf := bytes.NewBuffer(append(append([]byte{}, ser...), 9, 9))
+				bb, err := bchutil.NewBlockFromReader(buf)
+				if err == nil {
+					o.b, o.msg = bb, bb.MsgBlock()
+				}
+				buf.Reset()
+				buf.Write(bytes.Repeat([]byte{0xEE}, len(ser)))
 			case "msg+bytes":
 				o.b = bchutil.NewBlockFromBlockAndBytes(msg, append([]byte{}, ser...))
 			}
@@ -211,7 +220,7 @@ func opTxWrap(_ *HState, a Event) Event {
 
 func runC16(c *Ctx) {
 	r := c.Rng
-	ctors := []string{"msg", "bytes", "reader", "msg+bytes", "bytes+trailing"}
+	ctors := []string{"msg", "bytes", "reader", "msg+bytes", "bytes+trailing", "buffer"}
 	// TLC-generated call sequences on blocks of 0..3 transactions, for every constructor
 	for ci, cs := range readCases(c.Cases) {
 		n := gInt(cs, "n")
@@ -253,6 +262,11 @@ func runC16(c *Ctx) {
 			calls = append(calls, Event{"op": "Tx", "i": i}, Event{"op": "TxHash", "i": i})
 		}
 		c.Run(calls)
+	}
+	// transaction counts around the CompactSize boundary (one-byte / three-byte count): locations and bytes
+	for i, n := range []int{252, 253, 254, c.Pick(300, 1000)} {
+		c.Run([]Event{{"op": "BlockNew", "n": n, "salt": 7700 + i, "ctor": ctors[(i+1)%len(ctors)], "token": false},
+			{"op": "TxLoc"}, {"op": "Bytes"}, {"op": "Tx", "i": n - 1}, {"op": "TxHash", "i": 0}, {"op": "TxLoc"}})
 	}
 	for k := 0; k < c.Pick(20, 200); k++ {
 		c.Call(Event{"op": "TxWrap", "k": k, "salt": int(r.Int31n(60000)), "setindex": r.Intn(100) - 1})
